@@ -154,11 +154,39 @@ func (c *FCtx) oblige(st *State, kind, name string, pos token.Pos, goal *Term, t
 	if st.dead {
 		return
 	}
+	// one obligation per conjunct: A => (B1 && B2) and (B1 && B2) are split
+	if parts := splitGoal(goal); len(parts) > 1 {
+		for i, p := range parts {
+			c.oblige(st, kind, fmt.Sprintf("%s/%d", name, i+1), pos, p, text)
+		}
+		return
+	}
 	o := &Obligation{Name: c.Name + ":" + name, Kind: kind, Goal: goal, Hyps: st.pc.list(), Func: c.Name, Text: text}
 	if pos.IsValid() {
 		o.Pos = c.W.relPos(pos)
 	}
 	c.Obls = append(c.Obls, o)
+}
+
+func splitGoal(g *Term) []*Term {
+	switch g.Op {
+	case "and":
+		var out []*Term
+		for _, a := range g.Args {
+			out = append(out, splitGoal(a)...)
+		}
+		return out
+	case "=>":
+		cons := splitGoal(g.Args[1])
+		if len(cons) > 1 {
+			var out []*Term
+			for _, x := range cons {
+				out = append(out, Implies(g.Args[0], x))
+			}
+			return out
+		}
+	}
+	return []*Term{g}
 }
 
 func (c *FCtx) safety(st *State, kind string, pos token.Pos, goal *Term, text string) {
@@ -1371,16 +1399,21 @@ func (e *Env) execSwitch(x *ast.SwitchStmt, st *State, label string) []Outcome {
 			}
 		}
 	}
-	for _, cl := range x.Body.List {
+	for ci, cl := range x.Body.List {
 		cc := cl.(*ast.CaseClause)
 		if cc.List == nil {
 			defaultClause = cc
 			continue
 		}
-		for _, s := range cc.Body {
-			if b, ok := s.(*ast.BranchStmt); ok && b.Tok == token.FALLTHROUGH {
-				panic(outOfReach("fallthrough"))
+		body := cc.Body
+		// fallthrough: append the bodies of the following clauses
+		for k := ci; len(body) > 0; k++ {
+			b, ok := body[len(body)-1].(*ast.BranchStmt)
+			if !ok || b.Tok != token.FALLTHROUGH || k+1 >= len(x.Body.List) {
+				break
 			}
+			nb := append([]ast.Stmt{}, body[:len(body)-1]...)
+			body = append(nb, x.Body.List[k+1].(*ast.CaseClause).Body...)
 		}
 		var conds []*Term
 		for _, ce := range cc.List {
@@ -1397,7 +1430,7 @@ func (e *Env) execSwitch(x *ast.SwitchStmt, st *State, label string) []Outcome {
 		}
 		ts := cur.clone()
 		ts.assume(cond)
-		handle(e.execBlock(cc.Body, ts))
+		handle(e.execBlock(body, ts))
 		cur.assume(Not(cond))
 		if cond.IsTrue() {
 			cur = nil
